@@ -37,6 +37,10 @@ fn run(input: RunInput) -> ScenFuture {
         let mut cfg_l = base_config(20_000, Some(3_000));
         cfg_l.max_concurrent_connections = limit;
         cfg_l.connect_timeout_ms = Some(1_500);
+        // a small cap on connections being established (another feature's setting: it bounds
+        // background dialing, C13) must not influence admission
+        let small_cap = w.flag("small_connecting_cap", 0.3).then(|| w.param("connecting_cap", 1, 3) as usize);
+        cfg_l.max_concurrent_outstanding_connecting_connections = small_cap;
         cfg_l.connectivity_check_interval_ms = Some(tick_ms);
         cfg_l.connection_backoff_ms = Some(100);
         cfg_l.max_connection_backoff_ms = Some(400);
@@ -70,6 +74,8 @@ fn run(input: RunInput) -> ScenFuture {
         // dials of the listener's own that hang (explicit ones to addresses where nobody answers, a
         // High-affinity peer behind such an address): connections being established are not
         // established connections, so an arrival meanwhile is judged exactly as without them
+        let cpu_bound = w.flag("cpu_bound_handlers", 0.3);
+        let mut r_cpu = w.rng("wl:cpu-bound");
         let hanging = w.flag("listener_dials_hang_meanwhile", 0.4);
         let mut hanging_tasks = Vec::new();
         if hanging && r.gen_bool(0.5) {
@@ -189,14 +195,27 @@ fn run(input: RunInput) -> ScenFuture {
                 if limit.map(|x| model.len() >= x).unwrap_or(false) {
                     decided += 1;
                 }
-                if !connected && !lossy {
+                // (with a small cap on connections being established, hanging dials may legitimately
+                // postpone a background dial: that is C13's subject)
+                if !connected && !lossy && !(small_cap.is_some() && hanging) {
                     w.violate("background-dial-to-high-peer-blocked", format!("limit={limit:?}"), format!("step {step}: {desc}"));
                 }
                 if connected {
                     model.insert(d.peer_id);
                 }
             } else if choice < 82 {
-                // disconnect (frees a slot), by either side
+                // disconnect (frees a slot), by either side; in some runs while a request of that
+                // dialer is in a CPU-bound handler at the listener (the slot is free nevertheless:
+                // the connection is gone, whatever the handler is still doing)
+                if cpu_bound && model.contains(&d.peer_id) && r_cpu.gen_bool(0.5) {
+                    let hold: u64 = r_cpu.gen_range(300..3_000);
+                    let (net, lid) = (d.net.clone(), l.peer_id);
+                    tokio::spawn(async move {
+                        let _ = net.rpc(lid, anemo::Request::new(bytes::Bytes::from_static(b"busy")).with_header("x-hold-ms", hold.to_string())).await;
+                    });
+                    sleep_ms(settle_ms).await;
+                    w.probe("disconnect-while-a-handler-is-cpu-bound");
+                }
                 let by_listener = r.gen_bool(0.5);
                 if by_listener {
                     let _ = l.net.disconnect(d.peer_id);
